@@ -298,6 +298,10 @@ func (p *Proxy) setDest(ctx context.Context, newDestURL *url.URL, onSubmit func(
 						p.logWarnf("error closing dest %s: %s", destUrl, err)
 					}
 				}
+			} else if ctx.Err() != nil {
+				// the session is ending: the entry is deleted below, so closeConnections
+				// will not find this parked connection any more
+				dest.conn.Close()
 			}
 
 			p.destMap.Delete(destUrl)
